@@ -297,6 +297,15 @@ func (e *c52Env) caseG1(rt *rapid.T) {
 			e.fail(rt, "P + (-P') is not the identity for P = [%v]G and P' the same element via %s: %x", a, route, z.Marshal())
 		}
 		e.c.Class("g1:equal-element-route:" + route)
+		// P + P' = 2P.  The doc comment of Add warns that it "fails for a equal to b"; the implementation
+		// detects doubling (its own scalar multiplication depends on that), so the sum of one element held in
+		// two different representations is demanded here, with the caveat named in the message.
+		if !ma.Inf {
+			fresh2 := new(bn256.G1).ScalarBaseMult(a)
+			if d := new(bn256.G1).Add(fresh2, other); !bytes.Equal(d.Marshal(), ma.Add(ma).Encode()) {
+				e.fail(rt, "P + P' != 2P for P = [%v]G and P' the same element via %s: %x, want %x [note: Add's doc comment warns about equal operands]", a, route, d.Marshal(), ma.Add(ma).Encode())
+			}
+		}
 	case 4: // associativity with pairwise distinct operands at every Add
 		cS, _ := c52Scalar(rt, "c")
 		if e.negGuard(cS) {
@@ -347,6 +356,37 @@ func (e *c52Env) caseG2(rt *rapid.T) {
 	back, ok := new(bn256.G2).Unmarshal(pa.Marshal())
 	if !ok || !bytes.Equal(back.Marshal(), ma.Encode()) {
 		e.fail(rt, "G2 Unmarshal(Marshal([%v]Q)) failed or differs (ok=%v)", a, ok)
+	}
+	if c52Uni(rt, "g2route", 3) == 0 && !ma.Inf {
+		// the same element by another route, operands never normalised: P + P' = 2P, P + [n-k]Q = infinity
+		var other *bn256.G2
+		route := ""
+		switch c52Uni(rt, "route", 3) {
+		case 0:
+			other, _ = new(bn256.G2).Unmarshal(ma.Encode())
+			route = "unmarshal"
+		case 1:
+			x := c52ModN(b)
+			y := c52ModN(new(big.Int).Sub(a, x))
+			if x.Cmp(y) == 0 {
+				x.Add(x, big.NewInt(1))
+				y = c52ModN(new(big.Int).Sub(a, x))
+			}
+			other = new(bn256.G2).Add(new(bn256.G2).ScalarBaseMult(x), new(bn256.G2).ScalarBaseMult(y))
+			route = "x*Q+y*Q"
+		default:
+			other = new(bn256.G2).ScalarBaseMult(new(big.Int).Add(a, rc.BNN))
+			route = "(k+n)*Q"
+		}
+		fresh := new(bn256.G2).ScalarBaseMult(a)
+		if d := new(bn256.G2).Add(fresh, other); !bytes.Equal(d.Marshal(), ma.Add(ma).Encode()) {
+			e.fail(rt, "G2: P + P' != 2P for P = [%v]Q and P' the same element via %s [note: Add's doc comment warns about equal operands]", a, route)
+		}
+		negK := c52ModN(new(big.Int).Neg(a))
+		if z := new(bn256.G2).Add(new(bn256.G2).ScalarBaseMult(a), new(bn256.G2).ScalarBaseMult(negK)); !bytes.Equal(z.Marshal(), make([]byte, 128)) {
+			e.fail(rt, "G2: [%v]Q + [n-k]Q is not the identity", a)
+		}
+		e.c.Class("g2:equal-element-route:" + route)
 	}
 	switch op := c52Uni(rt, "g2op", 4); op {
 	case 0:
